@@ -213,6 +213,25 @@ class SymBytes(bytes):
     def __radd__(self, o):
         return SymBytes((o.sym if isinstance(o, SymBytes) else list(o)) + self.sym)
 
+    def decode(self, encoding="utf-8", errors="strict"):
+        """text of the bytes; a byte outside ASCII is decided per path (strict ascii / utf-8 refuse it: for a lone byte >= 128 both raise
+        UnicodeDecodeError; multi-byte utf-8 sequences of symbolic bytes are not modelled)"""
+        from .strs import SymStr
+        if not any(isinstance(v, SV) for v in self.sym):
+            return bytes(self.sym).decode(encoding, errors)
+        enc = encoding.lower().replace("-", "").replace("_", "")
+        if enc in ("latin1", "iso88591", "latin"):
+            return SymStr(self.sym)
+        if enc not in ("ascii", "utf8") or errors != "strict":
+            raise UnsupportedSymbolicOp(f"bytes.decode({encoding!r}, {errors!r}) of symbolic bytes")
+        for k, v in enumerate(self.sym):
+            bad = ENGINE.branch_term(v.t >= 128) if isinstance(v, SV) else v >= 128
+            if bad:
+                if enc == "utf8" and not isinstance(v, SV):
+                    raise UnsupportedSymbolicOp("utf-8 decoding of non-ASCII bytes next to symbolic ones")
+                raise UnicodeDecodeError(enc, bytes([0x80]), 0, 1, "ordinal not in range(128)" if enc == "ascii" else "invalid start byte")
+        return SymStr(self.sym)
+
 
 # ------------------------------------------------------------------------------------------------
 class SymArray:
